@@ -76,7 +76,8 @@ claim('C17',
       'sub-list of such a list, so no stored line contains a line break and each physical line is one entry; blocks '
       'never share a buffer; the string form is every header and content line followed by exactly one EOL (empty '
       'block -> empty string); flattening recurses into lists and dict values in order with the empty-string skip as '
-      'the only filter, and append keeps empty strings. The algebraic laws of the statement (round trip, reference '
+      'the only filter, and append keeps empty strings; TextBlock(v), append, + and += interpreted (E7) over 24 kinds of content '
+      'hold exactly the lines of what was put in (C17.lines), trimming interpreted on line lists up to length 4 (C17.trim). The algebraic laws of the statement (round trip, reference '
       'flattener, trim, chunk) are value-level equalities and are NOT decided.',
       'Trusted: python ast, E1 types, semantics of str.splitlines/join. Assumes callers of the public lines setter '
       'pass line-break-free strings and that bullet glyphs contain no line break.')
@@ -207,7 +208,9 @@ claim('C06',
       'instantiation); E4 evaluation of the shell header/source frames for guard and linkage; AST set-comparison '
       'rules for include closure and declaration/definition pairing',
       'Static rule set: every quoted include names the model\'s own header, the shell header or a returned support '
-      'file; every function declared in the shell header is defined in the source; every generated header frame emits an '
+      'file; every function declared in the shell header is defined in the source; the member variables and accessors the header '
+      'declares per port range over the complete port list (no partial view - last group of an unsorted groupby, slice: C06.members, E4); '
+      'every generated header frame emits an '
       'include guard before the first declaration; the shell is never wrapped in an unnamed namespace; namespace, '
       'spelling and file prefix derive from one value; the six support headers (the only C++ whose text does not depend '
       'on the model) are accepted by clang++ -std=c++17 on their own, twice in one TU, all together in both orders and '
